@@ -111,6 +111,19 @@ def check(facts, rep, tier, cfg):
                     where = "%s (%s)" % (loc_str(t["loc"]), b.path)
                     h = names_in(b, tr.operand(t["args"][1])) - {None}
                     p = names_in(b, tr.operand(t["args"][2])) - {None}
+                    if "http::" in b.path:
+                        hn = tr.operand(t["args"][1])
+                        pn = tr.operand(t["args"][2])
+                        hcalls = [x[6] for x in walk(hn) if x.kind == "call"]
+                        pcalls = [x[6] for x in walk(pn) if x.kind == "call"]
+                        okh = "host" in hcalls and "authority" in hcalls and "as_str" not in hcalls and "to_string" not in hcalls
+                        okp = ("port_u16" in pcalls or "port" in pcalls) and "authority" in pcalls
+                        if okh and okp:
+                            rep.ok("C01.R1", "request-args/http::", where, "host <- authority().host(), port <- authority().port_u16()")
+                        else:
+                            rep.bad("C01.R1", "request-args/http::", where,
+                                    "the HTTP proxy requests a stream for host<-%s port<-%s, expected the request authority's host() and port_u16()" % (
+                                        sorted(set(hcalls))[:6], sorted(set(pcalls))[:6]))
                     for pat, (wh, wp) in want.items():
                         if pat in b.path and wh is not None:
                             if wh <= h and wp <= p:
